@@ -205,12 +205,12 @@ func (g *gen) validServing() ServingW {
 		s.ClientCAData = hx(g.pem.cas[g.r.Intn(len(g.pem.cas))])
 	}
 	for i, n := 0, g.r.Intn(3); i < n; i++ {
-		s.ServerNames = append(s.ServerNames, hx(g.pick("sn1.example", "sn2.example", "SN3.Example", "alias")))
+		s.ServerNames = append(s.ServerNames, hx(g.alias()))
 	}
 	return s
 }
 
-var clusterNames = []string{"c1.example", "c2.example", "c3", "other.example"}
+var clusterNames = nameUniverse
 
 func (g *gen) validCluster() ClusterW {
 	w := ClusterW{Name: hx(g.pick(clusterNames...))}
@@ -455,12 +455,34 @@ func (g *gen) wildCluster() ClusterW {
 	return w
 }
 
+// One universe of names for cluster names, server names (aliases) of the object under admission and of the OTHER
+// clusters the lister / the gateway already hold, so that they collide in every way: equal, different case on either
+// side, name-vs-alias, alias-vs-alias, alias-vs-name. Stored names are valid (lower case); aliases are free-form.
+var nameUniverse = []string{"c1.example", "c2.example", "c3", "other.example", "api.example.com", "alias"}
+
+func (g *gen) caseVariant(s string) string {
+	switch g.r.Intn(4) {
+	case 0:
+		return strings.ToUpper(s)
+	case 1:
+		return strings.Title(s) //nolint
+	case 2:
+		b := []byte(s)
+		i := g.r.Intn(len(b))
+		b[i] = strings.ToUpper(string(b[i]))[0]
+		return string(b)
+	}
+	return s
+}
+
+func (g *gen) alias() string { return g.caseVariant(g.pick(nameUniverse...)) }
+
 func (g *gen) known() []KnownW {
 	var l []KnownW
-	for i, n := 0, g.r.Intn(3); i < n; i++ {
-		k := KnownW{Name: hx(g.pick("c1.example", "c2.example", "C1.example", "other.example", "sn1.example", "alias"))}
+	for i, n := 0, 1+g.r.Intn(3); i < n; i++ {
+		k := KnownW{Name: hx(g.pick(nameUniverse...))}
 		for j, m := 0, g.r.Intn(3); j < m; j++ {
-			k.ServerNames = append(k.ServerNames, hx(g.pick("sn1.example", "SN2.example", "sn3.example", "c1.example", "c3", "x")))
+			k.ServerNames = append(k.ServerNames, hx(g.alias()))
 		}
 		l = append(l, k)
 	}
@@ -491,7 +513,7 @@ func (g *gen) Case() (Case, string) {
 		cs.Cluster = g.wildCluster()
 		label = "wild"
 	}
-	if g.chance(0.4) {
+	if g.chance(0.6) {
 		cs.Known = g.known()
 	}
 	return cs, label
@@ -563,7 +585,7 @@ func (g *gen) UpdateCase(old ClusterW) (Case, string) {
 		label = "update:nothing"
 	}
 	cs := Case{Cluster: nw, Prev: &old, Op: "update"}
-	if g.chance(0.4) {
+	if g.chance(0.6) {
 		cs.Known = g.known()
 	}
 	return cs, label
